@@ -271,10 +271,52 @@ theorem main0Match_mono {f f' : F} (hle : FLe f f') {fuel : Nat} {cfg : Cfg} {sc
   rw [blockMatch_mono hle hb h0]
   exact heq
 
-theorem programLoop_mono {f f' : F} (hle : FLe f f') {unit : Cls} {fuel k : Nat} {rc : List Tree}
-    {s : St} {r : PRes} {s' : St} (heq : programLoop env f unit fuel k rc s = (r, s'))
+def UOk (u : UnitStep) : Prop := ∀ rc', u ≠ .stop (.fail rc' .outOfFuel)
+
+theorem unitStep_mono {f f' : F} (hle : FLe f f') {fuel : Nat} {unit main0 : Cls}
+    {rc : List Tree} {s : St} {u : UnitStep} {s' : St}
+    (heq : unitStep env f fuel unit main0 rc s = (u, s')) (hu : UOk u) :
+    unitStep env f' (fuel + 1) unit main0 rc s = (u, s') := by
+  unfold unitStep at heq ⊢
+  have hne : (f unit s).1 ≠ .raise .outOfFuel := by
+    intro h
+    split at heq
+    · rename_i e s1 h1
+      rw [h1] at h
+      simp only [Outcome.raise.injEq] at h
+      subst h
+      simp only [beq_iff_eq, Bool.and_eq_true] at heq
+      rw [if_neg (by simp)] at heq
+      simp only [Prod.mk.injEq] at heq
+      exact hu _ heq.1.symm
+    · rename_i o s1 hno h1
+      rw [h1] at h
+      exact hno _ h
+  rw [hle unit s hne]
+  split at heq
+  · rename_i e s1 h1
+    split at heq
+    · rename_i hc
+      rw [if_pos hc]
+      generalize hb : blockMatch env f fuel (fallbackCfg main0) (s1.ev (Ev.ghost Ghost.fallback))
+        = br at heq
+      obtain ⟨r2, s2⟩ := br
+      have hr2 : r2 ≠ .raise .outOfFuel := by
+        intro h; subst h
+        simp only [Prod.mk.injEq] at heq
+        exact hu _ heq.1.symm
+      rw [blockMatch_mono hle hb hr2]
+      exact heq
+    · rename_i hc
+      rw [if_neg hc]
+      exact heq
+  · exact heq
+
+theorem programLoop_mono {f f' : F} (hle : FLe f f') {unit main0 : Cls} {fuel k : Nat}
+    {rc : List Tree} {s : St} {r : PRes} {s' : St}
+    (heq : programLoop env f unit main0 fuel k rc s = (r, s'))
     (hr : ∀ rc', r ≠ .fail rc' .outOfFuel) :
-    programLoop env f' unit (fuel + 1) (k + 1) rc s = (r, s') := by
+    programLoop env f' unit main0 (fuel + 1) (k + 1) rc s = (r, s') := by
   induction k generalizing rc s with
   | zero =>
     simp only [programLoop, Prod.mk.injEq] at heq
@@ -284,34 +326,30 @@ theorem programLoop_mono {f f' : F} (hle : FLe f f') {unit : Cls} {fuel k : Nat}
     generalize hm : k + 1 = m
     simp only [programLoop]
     subst hm
-    have hne : (f unit s).1 ≠ .raise .outOfFuel := by
-      intro h
+    generalize hus : unitStep env f fuel unit main0 rc s = us at heq
+    obtain ⟨u, s1⟩ := us
+    have hu : UOk u := by
+      intro rc' h; subst h
+      simp only [Prod.mk.injEq] at heq
+      exact hr _ heq.1.symm
+    rw [unitStep_mono hle hus hu]
+    cases u with
+    | stop r1 => exact heq
+    | go rc1 =>
+      simp only at heq ⊢
       split at heq
-      · rename_i e s1 h1
-        rw [h1] at h
-        simp only [Outcome.raise.injEq] at h
-        subst h
-        simp only [Prod.mk.injEq] at heq; exact hr _ heq.1.symm
-      · rename_i o s1 hno h1
-        rw [h1] at h
-        exact hno _ h
-    rw [hle unit s hne]
-    split at heq
-    · exact heq
-    · rename_i o s1 hno h1
-      · split at heq
-        · rename_i e s2 h2
-          have he : e ≠ .outOfFuel := by
-            intro h; subst h
-            simp only [Prod.mk.injEq] at heq; exact hr _ heq.1.symm
-          rw [addCID_mono h2 (by intro h; injection h with h; exact he h)]
-          exact heq
-        · rename_i rc2 s2 h2
-          rw [addCID_mono h2 (by intro h; cases h)]
-          simp only
-          split at heq
-          · exact heq
-          · exact ih heq
+      · rename_i e s2 h2
+        have he : e ≠ .outOfFuel := by
+          intro h; subst h
+          simp only [Prod.mk.injEq] at heq; exact hr _ heq.1.symm
+        rw [addCID_mono h2 (by intro h; injection h with h; exact he h)]
+        exact heq
+      · rename_i rc2 s2 h2
+        rw [addCID_mono h2 (by intro h; cases h)]
+        simp only
+        split at heq
+        · exact heq
+        · exact ih heq
 
 theorem programMatch_mono {f f' : F} (hle : FLe f f') {fuel : Nat} {unit main0 : Cls} {s : St}
     {r : MRes} {s' : St} (heq : programMatch env f fuel unit main0 s = (r, s'))
@@ -331,15 +369,20 @@ theorem programMatch_mono {f f' : F} (hle : FLe f f') {fuel : Nat} {unit main0 :
     · rename_i rc s2 h2
       rw [programLoop_mono hle h2 (by intro rc' h; cases h)]
       exact heq
-    · rename_i rc s2 h2
+    · rename_i s2 h2
       rw [programLoop_mono hle h2 (by intro rc' h; cases h)]
-      exact blockMatch_mono hle heq hr
-    · rename_i rc e s2 hne h2
+      exact heq
+    · rename_i rc e s2 h2
       have he : e ≠ .outOfFuel := by
         intro h; subst h
+        simp only [beq_iff_eq, Bool.and_eq_true] at heq
+        rw [if_neg (by simp)] at heq
         simp only [Prod.mk.injEq] at heq; exact hr heq.1.symm
       rw [programLoop_mono hle h2 (by intro rc' h; injection h with _ h; exact he h)]
-      cases e <;> first | exact (hne rfl).elim | exact heq
+      simp only
+      split at heq
+      · rename_i hc; rw [if_pos hc]; exact blockMatch_mono hle heq hr
+      · rename_i hc; rw [if_neg hc]; exact heq
 
 theorem altLoop_mono {g g' : G} (hle : GLe g g') {ds pc : List Cls} {s : St} {o : Outcome}
     {pc' : List Cls} {s' : St} (heq : altLoop env g ds pc s = (o, pc', s'))
